@@ -468,6 +468,64 @@ def url_failures(env, res, ctx):
         res.violation("C11:" + e[0], "from_url(width=-1): %s" % (e[1],), dict(kind="url-failure", path="bad-size"))
 
 
+def url_pairs(env, res, ctx, rnd):
+    """Several URL-sourced images open at the same time (same URL or same content under
+    another name, any styles), closed in a random order: every one of them has its own
+    private copy for exactly as long as it is open, and stays usable until then."""
+    from ..lib import style_classes
+
+    server, opened, tmpdir = ctx["server"], ctx["opened"], ctx["tmpdir"]
+    gc.collect()
+    opened.reset()
+    fds0, tmp0 = fd_count(), temp_files()
+    errs = []
+    name = "c11-pair.png"
+    make_image(random.Random(5), 5, 4, "RGB").save(os.path.join(tmpdir, name))
+    with open(os.path.join(tmpdir, name), "rb") as f:
+        data = f.read()
+    os.makedirs(os.path.join(tmpdir, "sub"), exist_ok=True)
+    with open(os.path.join(tmpdir, "sub", name), "wb") as f:
+        f.write(data)  # same content and base name under another URL
+    classes = style_classes()
+    urls = [server.url("/img/" + name), server.url("/img/" + name), server.url("/img/sub/" + name)]
+    images = []
+    try:
+        for u in rnd.sample(urls, rnd.randint(2, 3)):
+            images.append(classes[rnd.choice(["block", "kitty", "iterm2"])].from_url(u, width=3))
+        order = list(range(len(images)))
+        rnd.shuffle(order)
+        alive = set(order)
+        for i in order:
+            n_tmp = len(temp_files()) - len(tmp0)
+            if n_tmp != len(alive):
+                errs.append(("url-temp-file", "%d URL images open, %d private copies exist" % (len(alive), n_tmp)))
+                break
+            for j in sorted(alive):
+                try:
+                    str(images[j])
+                except Exception as e:
+                    errs.append(("url-image-unusable", "an open URL image cannot be rendered after another one was closed: %s: %s" % (type(e).__name__, e)))
+                    break
+            if errs:
+                break
+            images[i].close()
+            alive.discard(i)
+            res.count("URL images closed while others from the same URL stay open")
+    except Exception:
+        errs.append(("exception", traceback.format_exc()[-1200:]))
+    finally:
+        for im in images:
+            try:
+                im.close()
+            except Exception:
+                pass
+        images = im = None
+    audit(res, errs, opened, fds0, tmp0, None)
+    res.case(("url-pairs",))
+    for e in errs:
+        res.violation("C11:" + e[0], "URL images open together: %s" % (e[1],), dict(kind="url-pairs"))
+
+
 def pil_fault_sweep(case, env, res, ctx):
     """A failure injected at the k-th PIL operation of a render / iteration, for all k."""
     from term_image.image import ImageIterator
@@ -622,11 +680,16 @@ def run_shard(shard, env):
                 pil_fault_sweep(c, env, res, ctx)
             elif c.get("kind") == "url-failure":
                 url_failures(env, res, ctx)
+            elif c.get("kind") == "url-pairs":
+                for _ in range(8):
+                    url_pairs(env, res, ctx, rnd)
             else:
                 for e in run_history(c, env, res, ctx):
                     res.violation("C11:" + e[0], str(e[1:]), c)
             return res.as_dict()
         url_failures(env, res, ctx)
+        for _ in range(4):
+            url_pairs(env, res, ctx, rnd)
         # deterministic part of the PIL failure enumeration: every style x transparency
         # setting x source mode for a plain format() of a file / PIL source
         grid = [
